@@ -134,6 +134,52 @@ def run(cx):
                      f'{len(hashed)} hashed inputs')
         cx.check('C06.S2', not any(re.search(r'current_time|Instant|\.ttl\b', h) for h in hashed), k.path, 'hash-inputs',
                  'cache-key-clock-independent', '')
+        # every covered input reaches the key through ONE sequential hasher state: the hasher a Hash::hash call writes to is
+        # found through the re-borrow chain of its second argument; a second hasher counts only if its finish() value is itself
+        # hashed (unmodified) into the key hasher.  A per-record hash folded with ^ / + / | is commutative and self-cancelling
+        # (a record present twice disappears from the key) and does not count.
+        d = k.defs()
+
+        def root(l, depth=0):
+            while depth < 12:
+                ds = d.get(l, [])
+                if len(ds) != 1 or ds[0][2] != 'assign' or ds[0][3][0] not in ('ref', 'use', 'copy', 'move'):
+                    return l
+                pl = ds[0][3][1]
+                if isinstance(pl, list) and pl and pl[0] in ('m', 'c') and len(pl) == 2:
+                    pl = pl[1]
+                l = pl if isinstance(pl, int) else (pl[0] if isinstance(pl, list) and isinstance(pl[0], int) else None)
+                if l is None:
+                    return None
+                depth += 1
+            return l
+        hcalls, fin = [], {}
+        for bi, c_, t_ in cx.prog.calls_of(k):
+            nm = c_.get('res') or c_['def']
+            args = t_[2]
+            loc = lambda a: a[1] if isinstance(a[1], int) else a[1][0]
+            if re.search(r'Hash>::hash$|Hash::hash$', nm) and len(args) == 2:
+                hcalls.append((root(loc(args[0])), root(loc(args[1])), shorten(k.term_call(t_, 0))))
+            elif re.search(r'Hasher>::finish$|Hasher::finish$', nm):
+                fin[t_[3] if isinstance(t_[3], int) else t_[3][0]] = root(loc(args[0]))
+        keyh = None
+        rd = [x for x in d.get(0, []) if x[2] == 'assign' and x[3][0] == 'adt']
+        if len(rd) == 1:
+            ops = [root(o[1] if isinstance(o[1], int) else o[1][0]) for o in rd[0][3][3] if o[0] in ('m', 'c')]
+            hs = [fin[o] for o in ops if o in fin]
+            keyh = hs[0] if len(hs) == 1 else None
+        feeds = {keyh}
+        for _ in range(4):
+            for dst, h in fin.items():
+                if any(a0 == dst and h1 in feeds for a0, h1, _ in hcalls):
+                    feeds.add(h)
+        cx.check('C06.S2', keyh is not None, k.path, 'ret', 'cache-key-is-a-hasher-finish', f'{len(fin)} finish() calls')
+        for nm, rx in need.items():
+            hs = [t for _, h1, t in hcalls if re.search(rx, t)]
+            ok = bool(hs) and all(h1 in feeds for _, h1, t in hcalls if re.search(rx, t))
+            cx.check('C06.S2', ok, k.path, 'hash-inputs', 'sequential-hasher-receives:' + nm,
+                     'hashed into a hasher state whose value is not (only) hashed on into the key: a commutative fold loses multiplicity and order'
+                     if not ok else f'{len(hs)} call(s)', sample={'input': nm, 'holds': ok})
     g = cx.fn('C06.G4', N + 'ValidationCache::get')
     if g:
         some = cx.returns(g, r'^Option::Some\(')
